@@ -1,5 +1,5 @@
 import Refine.Lemmas.NodeIds
-import Refine.Model.MeshOps
+import Refine.Lemmas.MeshOps
 
 /-!
   C13 — every accepted local operation keeps the mesh valid around the touched vertices; a rejected attempt
@@ -24,5 +24,178 @@ theorem trialFrame_reject_no_trace {m : Mesh} (h : NodeInv m.ids) (hp : PoolInv 
     (trialFrame m n0 n1 d).2.2.2.ids.abs = m.ids.abs := by
   obtain ⟨h1, h2, h3, h4, h5⟩ := trial_roundtrip h hp
   cases d <;> first | exact absurd rfl hd | (simp [trialFrame, trialBegin, trialWithdraw, h1, h2, h3, h4, h5])
+
+/-! ## `ref_split_edge` -/
+
+/-- one group of `ref_split_edge`: with at most `MAX_CELL_SPLIT` cells on the edge the status is
+    `REF_SUCCESS` and the group becomes (a permutation of) "for every cell containing both end points the two
+    cells with `node0 ↦ new` resp. `node1 ↦ new`, every other cell unchanged"; with more the status is
+    `REF_INCREASE_LIMIT` and the group is untouched -/
+theorem splitGroup_spec (np : Nat) (cs : List Cell) (n0 n1 new : Int) :
+    ((cs.filter (has2 np n0 n1)).length ≤ MAX_CELL_SPLIT →
+      (splitGroup np cs n0 n1 new).1 = .ok ∧ (splitGroup np cs n0 n1 new).2.Perm (splitSpec np n0 n1 new cs)) ∧
+    (MAX_CELL_SPLIT < (cs.filter (has2 np n0 n1)).length →
+      splitGroup np cs n0 n1 new = (.increase_limit, cs)) := by
+  constructor
+  · intro h
+    have : ¬ (cs.filter (has2 np n0 n1)).length > MAX_CELL_SPLIT := by omega
+    simp only [splitGroup, listWith2, this, if_false, ne_eq, not_true_eq_false, true_and]
+    exact splitLoop_spec np n0 n1 new cs
+  · intro h
+    simp [splitGroup, listWith2, h]
+
+/-- **splitEdge_spec**: `ref_split_edge` with every group within `MAX_CELL_SPLIT` succeeds and replaces, group by
+    group (tet, tri, edg), every cell on the edge by its two halves; nothing else changes -/
+theorem splitEdge_spec (g : Groups) (n0 n1 new : Int)
+    (ht : (g.tet.filter (has2 4 n0 n1)).length ≤ MAX_CELL_SPLIT)
+    (hr : (g.tri.filter (has2 3 n0 n1)).length ≤ MAX_CELL_SPLIT)
+    (he : (g.edg.filter (has2 2 n0 n1)).length ≤ MAX_CELL_SPLIT) :
+    (splitEdge g n0 n1 new).1 = .ok ∧
+    (splitEdge g n0 n1 new).2.tet.Perm (splitSpec 4 n0 n1 new g.tet) ∧
+    (splitEdge g n0 n1 new).2.tri.Perm (splitSpec 3 n0 n1 new g.tri) ∧
+    (splitEdge g n0 n1 new).2.edg.Perm (splitSpec 2 n0 n1 new g.edg) := by
+  obtain ⟨t1, t2⟩ := (splitGroup_spec 4 g.tet n0 n1 new).1 ht
+  obtain ⟨r1, r2⟩ := (splitGroup_spec 3 g.tri n0 n1 new).1 hr
+  obtain ⟨e1, e2⟩ := (splitGroup_spec 2 g.edg n0 n1 new).1 he
+  simp only [splitEdge, t1, r1, e1, ne_eq, not_true_eq_false, if_false, true_and]
+  exact ⟨t2, r2, e2⟩
+
+/-- the only error `ref_split_pass` recovers from: more than `MAX_CELL_SPLIT` tets on the edge ↦
+    `REF_INCREASE_LIMIT` before anything was changed -/
+theorem splitEdge_tet_limit (g : Groups) (n0 n1 new : Int)
+    (ht : MAX_CELL_SPLIT < (g.tet.filter (has2 4 n0 n1)).length) :
+    splitEdge g n0 n1 new = (.increase_limit, g) := by
+  simp [splitEdge, (splitGroup_spec 4 g.tet n0 n1 new).2 ht]
+
+/-- cell counts: `+1` per split cell -/
+theorem splitSpec_length (np : Nat) (n0 n1 new : Int) (cs : List Cell) :
+    (splitSpec np n0 n1 new cs).length = cs.length + (cs.filter (has2 np n0 n1)).length := by
+  induction cs with
+  | nil => simp [splitSpec]
+  | cons a t ih =>
+    have : splitSpec np n0 n1 new (a :: t) = splitSpecCell np n0 n1 new a ++ splitSpec np n0 n1 new t := by
+      simp [splitSpec]
+    rw [this, List.length_append, ih]
+    by_cases h : has2 np n0 n1 a = true
+    · simp [splitSpecCell, h]; omega
+    · have h' : has2 np n0 n1 a = false := by simpa using h
+      simp [splitSpecCell, h']; omega
+
+/-- ids inherited: both halves carry the id entry (everything after the `node_per` vertices) of the cell they
+    split -/
+theorem split_ids_inherited (np : Nat) (n0 n1 new : Int) (c : Cell) (h : np ≤ c.length) :
+    (splitV0 np n0 new c).drop np = c.drop np ∧ (splitV1 np n0 n1 new c).drop np = c.drop np := by
+  refine ⟨drop_subst np n0 new c h, ?_⟩
+  unfold splitV1
+  rw [drop_subst, drop_subst, drop_subst] <;> simp [length_subst, h]
+
+/-- with a fresh `new` (not a vertex of the cell) the C's "undo" (`new ↦ node0`) restores the cell, so the
+    node1 version is plainly `node1 ↦ new` -/
+theorem splitV1_fresh (np : Nat) (n0 n1 new : Int) (c : Cell) (hf : new ∉ nodesOf np c) :
+    splitV1 np n0 n1 new c = subst np n1 new c := by
+  unfold splitV1
+  congr 1
+  unfold subst
+  have hl : ((c.take np).map fun v => if v = n0 then new else v).length = (c.take np).length := by simp
+  have htake : (((c.take np).map fun v => if v = n0 then new else v) ++ c.drop np).take np =
+      (c.take np).map fun v => if v = n0 then new else v := by
+    have := nodesOf_subst np n0 new c
+    simpa [nodesOf, subst] using this
+  have hdrop : (((c.take np).map fun v => if v = n0 then new else v) ++ c.drop np).drop np = c.drop np := by
+    rcases Nat.le_total np c.length with h | h
+    · exact drop_subst np n0 new c h
+    · have hd : c.drop np = [] := List.drop_of_length_le h
+      rw [hd, List.append_nil]
+      apply List.drop_of_length_le
+      simp [List.length_take]; omega
+  rw [htake, hdrop, List.map_map]
+  conv => rhs; rw [← List.take_append_drop np c]
+  congr 1
+  conv => rhs; rw [← List.map_id (c.take np)]
+  apply List.map_congr_left
+  intro v hv
+  have hv' : v ≠ new := fun e => hf (by simpa [nodesOf, e] using hv)
+  by_cases h0 : v = n0 <;> simp [h0, hv']
+
+/-! ## `ref_collapse_edge` -/
+
+/-- one group of `ref_collapse_edge` -/
+theorem collapseGroup_spec (np : Nat) (cs : List Cell) (n0 n1 : Int) :
+    ((cs.filter (has2 np n0 n1)).length ≤ MAX_CELL_COLLAPSE →
+      (collapseGroup np cs n0 n1).1 = .ok ∧ (collapseGroup np cs n0 n1).2.Perm (collapseSpec np n0 n1 cs)) ∧
+    (MAX_CELL_COLLAPSE < (cs.filter (has2 np n0 n1)).length →
+      collapseGroup np cs n0 n1 = (.increase_limit, cs)) := by
+  constructor
+  · intro h
+    have : ¬ (cs.filter (has2 np n0 n1)).length > MAX_CELL_COLLAPSE := by omega
+    simp only [collapseGroup, listWith2, this, if_false, ne_eq, not_true_eq_false, replaceNode_eq_map, true_and]
+    exact (removeLoop_spec (has2 np n0 n1) cs).map _
+  · intro h
+    simp [collapseGroup, listWith2, h]
+
+/-- after the substitution `node1 ↦ node0` (`node0 ≠ node1`) no cell of the group references `node1` -/
+theorem collapseSpec_unreferenced (np : Nat) (n0 n1 : Int) (hne : n0 ≠ n1) (cs : List Cell) :
+    ∀ c ∈ collapseSpec np n0 n1 cs, n1 ∉ nodesOf np c := by
+  intro c hc
+  simp only [collapseSpec, List.mem_map, List.mem_filter] at hc
+  obtain ⟨c0, _, rfl⟩ := hc
+  rw [nodesOf_subst]
+  intro hmem
+  simp only [List.mem_map] at hmem
+  obtain ⟨v, _, hv⟩ := hmem
+  by_cases h : v = n1
+  · simp only [h, if_true] at hv; exact hne hv
+  · simp only [h, if_false] at hv
+
+/-- **collapseEdge_subst**: with every group within `MAX_CELL_COLLAPSE` and `node1` a valid vertex,
+    `ref_collapse_edge` succeeds; every group becomes "cells containing both removed, `node1 ↦ node0` in the
+    rest"; `node1` is referenced by nothing (if `node0 ≠ node1`); the vertex is removed (`NodeInv` kept, slot no
+    longer valid, every other slot untouched) and its global id sits on top of the unused list -/
+theorem collapseEdge_subst {m : Mesh} (h : NodeInv m.ids) (n0 n1 : Int) (hv : m.ids.validSlot n1 = true)
+    (ht : (m.g.tet.filter (has2 4 n0 n1)).length ≤ MAX_CELL_COLLAPSE)
+    (hr : (m.g.tri.filter (has2 3 n0 n1)).length ≤ MAX_CELL_COLLAPSE)
+    (he : (m.g.edg.filter (has2 2 n0 n1)).length ≤ MAX_CELL_COLLAPSE) :
+    (collapseEdge m n0 n1).1 = .ok ∧
+    (collapseEdge m n0 n1).2.g.tet.Perm (collapseSpec 4 n0 n1 m.g.tet) ∧
+    (collapseEdge m n0 n1).2.g.tri.Perm (collapseSpec 3 n0 n1 m.g.tri) ∧
+    (collapseEdge m n0 n1).2.g.edg.Perm (collapseSpec 2 n0 n1 m.g.edg) ∧
+    (n0 ≠ n1 → unreferenced (collapseEdge m n0 n1).2.g [n1] = true) ∧
+    NodeInv (collapseEdge m n0 n1).2.ids ∧
+    (collapseEdge m n0 n1).2.ids.validSlot n1 = false ∧
+    (∀ w : Nat, w ≠ n1.toNat →
+      (collapseEdge m n0 n1).2.ids.global.getD w (-1) = m.ids.global.getD w (-1)) ∧
+    (collapseEdge m n0 n1).2.ids.unusedStk = m.ids.global.getD n1.toNat (-1) :: m.ids.unusedStk := by
+  obtain ⟨t1, t2⟩ := (collapseGroup_spec 4 m.g.tet n0 n1).1 ht
+  obtain ⟨r1, r2⟩ := (collapseGroup_spec 3 m.g.tri n0 n1).1 hr
+  obtain ⟨e1, e2⟩ := (collapseGroup_spec 2 m.g.edg n0 n1).1 he
+  obtain ⟨k1, k2⟩ := remove_NodeInv h hv
+  have hce : collapseEdge m n0 n1 = (.ok, ⟨(m.ids.remove n1).2,
+      ⟨(collapseGroup 4 m.g.tet n0 n1).2, (collapseGroup 3 m.g.tri n0 n1).2, (collapseGroup 2 m.g.edg n0 n1).2⟩⟩) := by
+    simp only [collapseEdge, t1, r1, e1, k1, ne_eq, not_true_eq_false, if_false]
+  rw [hce]
+  obtain ⟨f1, _, _, f4, _, _⟩ := remove_fields h hv
+  refine ⟨rfl, t2, r2, e2, ?_, k2, ?_, fun w hw => remove_frame h hv hw, f4⟩
+  · intro hne
+    have u4 := collapseSpec_unreferenced 4 n0 n1 hne m.g.tet
+    have u3 := collapseSpec_unreferenced 3 n0 n1 hne m.g.tri
+    have u2 := collapseSpec_unreferenced 2 n0 n1 hne m.g.edg
+    simp only [unreferenced, List.all_cons, List.all_nil, Bool.and_true, Bool.and_eq_true, List.all_eq_true,
+      Bool.not_eq_eq_eq_not, Bool.not_true, List.contains_eq_mem, decide_eq_false_iff_not]
+    exact ⟨⟨fun c hc => u4 c (t2.mem_iff.1 hc), fun c hc => u3 c (r2.mem_iff.1 hc)⟩,
+      fun c hc => u2 c (e2.mem_iff.1 hc)⟩
+  · obtain ⟨hn0, hg0⟩ := validSlot_iff.1 hv
+    rw [Bool.eq_false_iff]
+    intro hc
+    obtain ⟨_, hc2⟩ := validSlot_iff.1 hc
+    simp only at hc2
+    rw [f1] at hc2
+    have hlt := lt_length_of_getD_nonneg hg0
+    have : (m.ids.global.set n1.toNat m.ids.blank).getD n1.toNat (-1) = m.ids.blank := by
+      simp [List.getD_eq_getElem?_getD, hlt]
+    rw [this] at hc2
+    have hb : m.ids.blank < 0 := by
+      obtain ⟨⟨l, hcn, _, _⟩, _⟩ := h.free
+      exact hcn.head_neg
+    omega
 
 end Refine.Props.C13
